@@ -10,7 +10,13 @@ package dht_test
 // bubble.  Every outgoing request parks on a gate; the driver releases one
 // request at a time in the order of the generated schedule and answers it from
 // the case's script (valid / stale / invalid / Select-error / mis-keyed /
-// nil-value / no record / error).  Observed: the values streamed by
+// nil-value / no record / error).  A value carries a sequence number (its
+// rank) and a tag that the validator's Select ignores: two valid values with
+// the same sequence number and different tags are byte-different and ranked
+// EQUALLY (Select keeps the first of equals, as the go-libp2p-record
+// validators do).  The first cases of every run are a fixed plan of such tie
+// scenarios on all three clients; a share of the random cases draws sequence
+// numbers from a narrow range with random tags.  Observed: the values streamed by
 // SearchValue, the result of GetValue / GetPublicKey, and the list of answers
 // in the order in which they were delivered; coq/Corr/Run_C04.v runs the model
 // on that delivery order.
@@ -117,7 +123,9 @@ func c04PeerID(s string) peer.ID {
 }
 
 // ---- validator ------------------------------------------------------------------------
-// value = [seq, flags, expiry lo, expiry hi]; see Model/ValueSearch.v c_valid / c_sel
+// value = [seq, flags, expiry lo, expiry hi]; see Model/ValueSearch.v c_valid / c_sel.
+// flags bit 0: invalid; bit 1: Select fails; bits 2-7: a tag that neither
+// Validate nor Select looks at (values of equal seq and different tag tie).
 
 var (
 	c04Start      = time.Date(2000, 1, 1, 0, 0, 0, 0, time.UTC) // synctest's epoch
@@ -160,6 +168,9 @@ func (c04Validator) Select(key string, vs [][]byte) (int, error) {
 func c04Val(seq, flags, expiry int) []byte {
 	return []byte{byte(seq), byte(flags), byte(expiry & 0xff), byte(expiry >> 8)}
 }
+
+// c04Tagged: flags with the Select-neutral tag in bits 2-7
+func c04Tagged(flags, tag int) int { return flags | (tag&63)<<2 }
 
 func c04ValN(v []byte) uint64 {
 	if len(v) != 4 {
@@ -268,6 +279,7 @@ type c04Resp struct {
 	Net  string `json:"net"`  // wan / lan
 	Kind string `json:"kind"` // valid stale invalid selerr miskeyed nilvalue norec error
 	Seq  int    `json:"seq,omitempty"`
+	Tag  int    `json:"tag,omitempty"` // Select-neutral tag (pk: 0 = canonical encoding of the key, else an alternative encoding)
 }
 
 type c04Spec struct {
@@ -276,6 +288,8 @@ type c04Spec struct {
 	Quorum  int       `json:"quorum"`
 	Local   string    `json:"local"` // none valid stale corrupt
 	LocalSq int       `json:"local_seq,omitempty"`
+	LocalTg int       `json:"local_tag,omitempty"`
+	Plan    string    `json:"plan,omitempty"` // name of the fixed tie scenario (empty: random case)
 	Resps   []c04Resp `json:"resps"`   // responder i answers with Resps[i]
 	Node    string    `json:"node"`    // pk: what the peer itself answers: correct wrongkey garbage miskeyed norec error
 	Choices []int     `json:"choices"` // schedule
@@ -284,15 +298,15 @@ type c04Spec struct {
 func (r c04Resp) value() []byte {
 	switch r.Kind {
 	case "valid":
-		return c04Val(r.Seq, 0, c04Fresh)
+		return c04Val(r.Seq, c04Tagged(0, r.Tag), c04Fresh)
 	case "stale":
-		return c04Val(r.Seq, 0, c04Expired)
+		return c04Val(r.Seq, c04Tagged(0, r.Tag), c04Expired)
 	case "invalid":
-		return c04Val(r.Seq, 1, c04Fresh)
+		return c04Val(r.Seq, c04Tagged(1, r.Tag), c04Fresh)
 	case "selerr":
-		return c04Val(r.Seq, 2, c04Fresh)
+		return c04Val(r.Seq, c04Tagged(2, r.Tag), c04Fresh)
 	case "miskeyed":
-		return c04Val(r.Seq, 0, c04Fresh)
+		return c04Val(r.Seq, c04Tagged(0, r.Tag), c04Fresh)
 	}
 	return nil
 }
@@ -310,8 +324,12 @@ func (r c04Resp) coq() string {
 		return "RespNoRec"
 	case "error":
 		return "RespErr"
-	// pk answers: value 1 = the peer's own key, 2 = another peer's key, 3 = bytes that are no key
+	// pk answers: value 1 = the peer's own key, 2 = another peer's key, 3 = bytes that are no key,
+	// 4 = the peer's own key in another encoding (byte-different, equally valid, Select ties)
 	case "correct":
+		if r.Tag != 0 {
+			return "RespRec 1 (Some 4)"
+		}
 		return "RespRec 1 (Some 1)"
 	case "wrongkey":
 		return "RespRec 1 (Some 2)"
@@ -319,6 +337,8 @@ func (r c04Resp) coq() string {
 		return "RespRec 1 (Some 3)"
 	case "pkmiskeyed":
 		return "RespRec 2 (Some 2)"
+	case "correctalt": // only as the answer of the peer itself
+		return "RespRec 1 (Some 4)"
 	}
 	panic("c04: bad response kind " + r.Kind)
 }
@@ -328,6 +348,7 @@ type c04Arrival struct {
 	Peer      int    `json:"peer"`
 	Kind      string `json:"kind"`
 	Seq       int    `json:"seq,omitempty"`
+	Tag       int    `json:"tag,omitempty"`
 	Delivered bool   `json:"delivered"`
 }
 
@@ -347,6 +368,7 @@ type c04Obs struct {
 type c04PkSet struct {
 	target, other       peer.ID
 	targetKey, otherKey []byte // marshalled public keys
+	targetKeyAlt        []byte // the target's key with an unknown protobuf field appended: unmarshals to the same key
 }
 
 var c04Pk *c04PkSet
@@ -379,6 +401,13 @@ func c04Keys() *c04PkSet {
 	s := &c04PkSet{}
 	s.target, s.targetKey = mk(0x5eed0001)
 	s.other, s.otherKey = mk(0x5eed0002)
+	// field 15, varint 1: ignored by crypto.UnmarshalPublicKey, so the bytes differ and the key does not
+	s.targetKeyAlt = append(append([]byte(nil), s.targetKey...), 0x78, 0x01)
+	if k, err := ci.UnmarshalPublicKey(s.targetKeyAlt); err != nil {
+		panic(fmt.Sprint("c04: alternative key encoding: ", err))
+	} else if id, _ := peer.IDFromPublicKey(k); id != s.target || bytes.Equal(s.targetKeyAlt, s.targetKey) {
+		panic("c04: alternative key encoding is not the target's key")
+	}
 	c04Pk = s
 	return s
 }
@@ -411,6 +440,8 @@ func (r *c04Run) reply(c *c04Call) (*pb.Message, error) {
 		switch r.spec.Node {
 		case "correct":
 			resp.Record = &recpb.Record{Key: req.GetKey(), Value: pk.targetKey}
+		case "correctalt":
+			resp.Record = &recpb.Record{Key: req.GetKey(), Value: pk.targetKeyAlt}
 		case "wrongkey":
 			resp.Record = &recpb.Record{Key: req.GetKey(), Value: pk.otherKey}
 		case "garbage":
@@ -432,6 +463,9 @@ func (r *c04Run) reply(c *c04Call) (*pb.Message, error) {
 		switch sp.Kind {
 		case "correct":
 			resp.Record = &recpb.Record{Key: req.GetKey(), Value: pk.targetKey}
+			if sp.Tag != 0 {
+				resp.Record.Value = pk.targetKeyAlt
+			}
 		case "wrongkey":
 			resp.Record = &recpb.Record{Key: req.GetKey(), Value: pk.otherKey}
 		case "garbage":
@@ -501,10 +535,13 @@ func (r *c04Run) run(t *testing.T) {
 		var v []byte
 		if spec.Op == "pk" {
 			v = pk.targetKey
+			if spec.LocalTg != 0 {
+				v = pk.targetKeyAlt
+			}
 		} else if spec.Local == "valid" {
-			v = c04Val(spec.LocalSq, 0, c04Fresh)
+			v = c04Val(spec.LocalSq, c04Tagged(0, spec.LocalTg), c04Fresh)
 		} else {
-			v = c04Val(spec.LocalSq, 0, c04Expired)
+			v = c04Val(spec.LocalSq, c04Tagged(0, spec.LocalTg), c04Expired)
 		}
 		vs := records.NewValueStore(mds, validator, 0)
 		if err := vs.Put(ctx, r.key, &recpb.Record{Key: []byte(r.key), Value: v}); err != nil {
@@ -685,14 +722,18 @@ func (r *c04Run) run(t *testing.T) {
 		})
 		pick := 0
 		if step < len(spec.Choices) {
-			pick = spec.Choices[step] % len(pend)
+			if ch := spec.Choices[step]; ch < 0 {
+				pick = len(pend) - 1 // the last of the canonical order
+			} else {
+				pick = ch % len(pend)
+			}
 		}
 		c := pend[pick]
 		if c.req.GetType() == pb.Message_GET_VALUE {
 			delivered := c.ctx.Err() == nil
 			if i, ok := r.idx[c.p]; ok {
 				sp := spec.Resps[i]
-				r.obs.Arrivals = append(r.obs.Arrivals, c04Arrival{Net: c.net, Peer: i, Kind: sp.Kind, Seq: sp.Seq, Delivered: delivered})
+				r.obs.Arrivals = append(r.obs.Arrivals, c04Arrival{Net: c.net, Peer: i, Kind: sp.Kind, Seq: sp.Seq, Tag: sp.Tag, Delivered: delivered})
 			} else if delivered {
 				r.obs.NodeRel = true
 			}
@@ -755,22 +796,40 @@ func c04GenSpec(r *vfRand, i int) c04Spec {
 			if !bad && r.Chance(30) {
 				k = "correct"
 			}
-			s.Resps = append(s.Resps, c04Resp{Net: "wan", Kind: k})
+			tag := 0
+			if k == "correct" && r.Chance(40) {
+				tag = 1 // the same key, other bytes
+			}
+			s.Resps = append(s.Resps, c04Resp{Net: "wan", Kind: k, Tag: tag})
 		}
 		s.Node = kinds[r.Intn(6)]
 		if bad && r.Chance(70) {
 			s.Node = kinds[1+r.Intn(5)]
+		}
+		if s.Node == "correct" && r.Chance(30) {
+			s.Node = "correctalt"
 		}
 		switch x := r.Intn(100); {
 		case x < 80:
 			s.Local = "none"
 		case x < 90 && !bad:
 			s.Local = "valid"
+			s.LocalTg = r.Intn(2)
 		default:
 			s.Local = "corrupt"
 		}
 	} else {
 		novalid := r.Chance(15) // nobody supplies a valid value
+		// ties: byte-different values of equal rank.  25%: no tags (equal seq = identical copy);
+		// 25%: tags, usual spread of sequence numbers; 50%: tags and only two sequence numbers
+		ntags, spread, off := 1, 5, 2
+		switch x := r.Intn(100); {
+		case x < 25:
+		case x < 50:
+			ntags = 2 + r.Intn(2)
+		default:
+			ntags, spread, off = 2+r.Intn(2), 2, 0
+		}
 		for j := 0; j < n; j++ {
 			var k string
 			switch x := r.Intn(100); {
@@ -794,7 +853,7 @@ func c04GenSpec(r *vfRand, i int) c04Spec {
 			if novalid && (k == "valid" || k == "selerr") {
 				k = "stale"
 			}
-			s.Resps = append(s.Resps, c04Resp{Net: "wan", Kind: k, Seq: 1 + (base+r.Intn(5)-2+250)%250})
+			s.Resps = append(s.Resps, c04Resp{Net: "wan", Kind: k, Seq: 1 + (base+r.Intn(spread)-off+250)%250, Tag: r.Intn(ntags)})
 		}
 		switch x := r.Intn(100); {
 		case x < 45:
@@ -809,7 +868,8 @@ func c04GenSpec(r *vfRand, i int) c04Spec {
 		default:
 			s.Local = "corrupt"
 		}
-		s.LocalSq = 1 + (base+r.Intn(5)-2+250)%250
+		s.LocalSq = 1 + (base+r.Intn(spread)-off+250)%250
+		s.LocalTg = r.Intn(ntags)
 	}
 	if s.Client == "dual" {
 		for j := range s.Resps {
@@ -822,6 +882,84 @@ func c04GenSpec(r *vfRand, i int) c04Spec {
 		s.Choices = append(s.Choices, r.Intn(1<<20))
 	}
 	return s
+}
+
+// ---- the fixed plan: tie scenarios ----------------------------------------------------------------------------
+// Every run starts with these cases (whatever the seed): two or more valid,
+// byte-different values of EQUAL rank reach the same search, from the local
+// store and from responders, on each client and for each operation, in the
+// canonical delivery order (responder 0 first) and in the reverse order.
+
+func c04Plan() []c04Spec {
+	v := func(seq, tag int) c04Resp { return c04Resp{Net: "wan", Kind: "valid", Seq: seq, Tag: tag} }
+	type scen struct {
+		name     string
+		local    string
+		lseq, lt int
+		quorum   int
+		resps    []c04Resp
+	}
+	scens := []scen{
+		// the local record and one responder tie
+		{"local-peer", "valid", 5, 0, 0, []c04Resp{v(5, 1)}},
+		// responders tie among themselves; a later identical copy of the first
+		{"peer-peer", "none", 0, 0, 0, []c04Resp{v(5, 1), v(5, 2), v(5, 1)}},
+		// an improvement, then ties at the new rank, a worse value in between
+		{"improve-then-tie", "valid", 4, 0, 0, []c04Resp{v(6, 1), v(6, 2), v(5, 0), v(6, 1), v(6, 3)}},
+		// two tied values alternate: the stream must not flip-flop
+		{"alternate", "none", 0, 0, -1, []c04Resp{v(5, 1), v(5, 2), v(5, 1), v(5, 2), v(5, 1), v(5, 2)}},
+		// ties count towards the quorum like any other answer
+		{"tie-quorum", "valid", 5, 0, 2, []c04Resp{v(5, 1), v(5, 2), v(7, 0), v(7, 3)}},
+		// ties next to everything that is dropped before the comparison
+		{"tie-among-dropped", "stale", 9, 1, 0, []c04Resp{
+			{Net: "wan", Kind: "stale", Seq: 9, Tag: 2}, v(5, 1), {Net: "wan", Kind: "invalid", Seq: 9}, v(5, 2),
+			{Net: "wan", Kind: "miskeyed", Seq: 9}, {Net: "wan", Kind: "error"}, v(5, 3)}},
+	}
+	var out []c04Spec
+	for _, client := range []string{"fullrt", "std", "dual"} {
+		for _, op := range []string{"search", "get"} {
+			for _, sc := range scens {
+				for ord := 0; ord < 2; ord++ {
+					s := c04Spec{Client: client, Op: op, Quorum: sc.quorum, Local: sc.local, LocalSq: sc.lseq, LocalTg: sc.lt,
+						Plan: fmt.Sprintf("%s/%d", sc.name, ord)}
+					s.Resps = append([]c04Resp(nil), sc.resps...)
+					if client == "dual" {
+						// alternate WAN / LAN so that the tie is also one between the two halves
+						for j := range s.Resps {
+							if j%2 == 1 {
+								s.Resps[j].Net = "lan"
+							}
+						}
+					}
+					if ord == 1 {
+						for j := 0; j < 4*len(s.Resps)+8; j++ {
+							s.Choices = append(s.Choices, -1)
+						}
+					}
+					out = append(out, s)
+				}
+			}
+		}
+		// GetPublicKey: the key in two encodings, from responders and from the local store
+		for ord := 0; ord < 2; ord++ {
+			for _, local := range []string{"none", "valid"} {
+				s := c04Spec{Client: client, Op: "pk", Quorum: -1, Local: local, LocalTg: 1, Node: "norec",
+					Plan: fmt.Sprintf("pk-encodings/%d", ord),
+					Resps: []c04Resp{{Net: "wan", Kind: "correct"}, {Net: "wan", Kind: "correct", Tag: 1}, {Net: "wan", Kind: "garbage"},
+						{Net: "wan", Kind: "correct"}}}
+				if client == "dual" {
+					s.Resps[1].Net, s.Resps[3].Net = "lan", "lan"
+				}
+				if ord == 1 {
+					for j := 0; j < 24; j++ {
+						s.Choices = append(s.Choices, -1)
+					}
+				}
+				out = append(out, s)
+			}
+		}
+	}
+	return out
 }
 
 // ---- emitting -------------------------------------------------------------------------------------------------
@@ -843,11 +981,14 @@ func c04Emit(cs *vfCases, run *c04Run, meta map[string]any) {
 	case "valid":
 		if s.Op == "pk" {
 			local = "(Some 1)"
+			if s.LocalTg != 0 {
+				local = "(Some 4)"
+			}
 		} else {
-			local = fmt.Sprintf("(Some %d)", c04ValN(c04Val(s.LocalSq, 0, c04Fresh)))
+			local = fmt.Sprintf("(Some %d)", c04ValN(c04Val(s.LocalSq, c04Tagged(0, s.LocalTg), c04Fresh)))
 		}
 	case "stale":
-		local = fmt.Sprintf("(Some %d)", c04ValN(c04Val(s.LocalSq, 0, c04Expired)))
+		local = fmt.Sprintf("(Some %d)", c04ValN(c04Val(s.LocalSq, c04Tagged(0, s.LocalTg), c04Expired)))
 	}
 	arr := make([]string, 0, len(o.Arrivals))
 	for _, a := range o.Arrivals {
@@ -937,8 +1078,42 @@ func c04Exec(t *testing.T, spec c04Spec) *c04Run {
 		if nv > 1 {
 			run.tags["multi"] = true
 		}
+		// two byte-different valid values of equal rank reached the search
+		type sv struct{ seq, tag int }
+		var vals []sv
+		if spec.Local == "valid" {
+			vals = append(vals, sv{spec.LocalSq, spec.LocalTg})
+		}
+		for _, a := range o.Arrivals {
+			if a.Delivered && a.Kind == "valid" {
+				vals = append(vals, sv{a.Seq, a.Tag})
+			}
+		}
+		for i := range vals {
+			for j := 0; j < i; j++ {
+				if vals[i].seq == vals[j].seq && vals[i].tag != vals[j].tag {
+					run.tags["tie"] = true
+					if j == 0 && spec.Local == "valid" {
+						run.tags["tie-local"] = true
+					}
+				}
+			}
+		}
 		if len(o.Arrivals) < len(spec.Resps) {
 			run.tags["stopped-early"] = true
+		}
+	} else {
+		enc := map[int]bool{}
+		if spec.Local == "valid" {
+			enc[spec.LocalTg] = true
+		}
+		for _, a := range o.Arrivals {
+			if a.Delivered && a.Kind == "correct" {
+				enc[a.Tag] = true
+			}
+		}
+		if len(enc) > 1 {
+			run.tags["tie"] = true
 		}
 	}
 	if o.Err == "notfound" {
@@ -955,12 +1130,18 @@ func TestVerifC04(t *testing.T) {
 	only := vfOnly()
 	cs := vfNewCases("Run_C04", 400)
 	root := vfNewRand(seed)
+	plan := c04Plan()
 	for i := 0; i < n; i++ {
 		r := root.Fork()
 		if only >= 0 && i != only {
 			continue
 		}
-		spec := c04GenSpec(r, i)
+		var spec c04Spec
+		if i < len(plan) {
+			spec = plan[i]
+		} else {
+			spec = c04GenSpec(r, i)
+		}
 		run := c04Exec(t, spec)
 		c04Emit(cs, run, map[string]any{"case": i, "seed": seed})
 	}
